@@ -5,8 +5,8 @@ import (
 	"bytes"
 	"fmt"
 	"net/http"
-	"os"
 	"net/http/httptest"
+	"os"
 	"path/filepath"
 	"runtime"
 	"sort"
@@ -147,7 +147,8 @@ func TestCheck(t *testing.T) {
 	budget := runner.Pick(r, 45*time.Second, 10*time.Minute) / time.Duration(waves)
 	if ji, ok := runner.Job(); ok {
 		j := jobs[ji]
-		spec := qcheck.Spec{Name: "c12-store", Backend: j.backend, Cfg: j.cfg, Alpha: alpha(), Depth: j.depth, Workers: 4,
+		// memory: with the order-list compaction thresholds lowered, so that compactions happen inside the histories
+		spec := qcheck.Spec{Name: "c12-store", Backend: j.backend, Cfg: j.cfg, Alpha: alpha(), Depth: j.depth, Workers: 4, ScaleCompaction: j.backend == "memory",
 			MaxTrans: runner.Pick(r, int64(3_000_000), int64(40_000_000)), Deadline: time.Now().Add(budget),
 			Extra: admission, Skip: overLimit}
 		res := qcheck.Run(spec)
@@ -158,7 +159,7 @@ func TestCheck(t *testing.T) {
 		r.RunJobs(len(jobs), par, budget+2*time.Minute)
 		rateLimiter(r)
 		sizeLimits(r)
-	sizeLimitsAcrossReload(r)
+		sizeLimitsAcrossReload(r)
 	}
 	concurrentAdmission(r, t)
 	concurrentLimiter(r, t)
@@ -293,18 +294,59 @@ func post(h http.Handler, path string, body []byte, extra string) int {
 	return w.Code
 }
 
+// framings of a request body: declared length, chunked in one chunk, chunked byte by byte, chunked with a trailer field,
+// and a body of unknown length handed over as a plain reader (what a streaming client / HTTP/2 looks like to the handler)
+var framings = []string{"content-length", "chunked", "chunked-1", "chunked-trailer", "stream"}
+
+// postFramed sends body on path in the given framing through http.ReadRequest (raw wire text) into the handler.
+func postFramed(h http.Handler, path string, body []byte, framing string) int {
+	if framing == "content-length" {
+		return post(h, path, body, "")
+	}
+	w := httptest.NewRecorder()
+	var raw strings.Builder
+	fmt.Fprintf(&raw, "POST %s HTTP/1.1\r\nHost: h\r\n", path)
+	switch framing {
+	case "stream":
+		raw.WriteString("\r\n")
+		rq := req(raw.String())
+		rq.Body = readCloser{bytes.NewReader(body)}
+		rq.ContentLength = -1
+		h.ServeHTTP(w, rq)
+		return w.Code
+	case "chunked-trailer":
+		raw.WriteString("Trailer: X-T\r\n")
+	}
+	raw.WriteString("Transfer-Encoding: chunked\r\n\r\n")
+	step := len(body)
+	if framing == "chunked-1" {
+		step = 1
+	}
+	for i := 0; i < len(body); i += step {
+		k := min(step, len(body)-i)
+		fmt.Fprintf(&raw, "%x\r\n%s\r\n", k, body[i:i+k])
+	}
+	raw.WriteString("0\r\n")
+	if framing == "chunked-trailer" {
+		raw.WriteString("X-T: v\r\n")
+	}
+	raw.WriteString("\r\n")
+	h.ServeHTTP(w, req(raw.String()))
+	return w.Code
+}
+
 type readCloser struct{ *bytes.Reader }
 
 func (readCloser) Close() error { return nil }
 
 type rlCfg struct {
-	name              string
-	globalRPS         float64
-	globalBurst       int
-	routeRPS          float64
-	routeBurst        int
-	effRPS            float64
-	effBurst          int
+	name        string
+	globalRPS   float64
+	globalBurst int
+	routeRPS    float64
+	routeBurst  int
+	effRPS      float64
+	effBurst    int
 }
 
 func dsl(worker int, c rlCfg) string {
@@ -697,21 +739,23 @@ func sizeLimitsAcrossReload(r *runner.Run) {
 			}
 			for _, route := range []string{"/p", "/q"} {
 				mb, mh, exists := to.limits(route)
-				for size := 0; size <= 12; size++ {
-					code := post(a.Ingress, route, bytes.Repeat([]byte{'x'}, size), "")
-					want := 202
-					switch {
-					case !exists:
-						want = 404
-					case size > mb:
-						want = 413
-					}
-					r.Add("size_cases", 1)
-					r.Distinct(fmt.Sprintf("reload-body:%v:%v:%d", exists, size > mb, code))
-					if code != want {
-						r.Violation(fmt.Sprintf("max_body-after-reload:%s->%s:%s", from.name, to.name, route),
-							fmt.Sprintf("booted with %s, reloaded to %s: body of %d bytes on %s answered %d, want %d (max_body in force %d)", from.name, to.name, size, route, code, want, mb),
-							map[string]any{"part": "size-reload", "from": from.name, "to": to.name, "route": route, "size": size}, nil)
+				for _, framing := range framings {
+					for size := 0; size <= 12; size++ {
+						code := postFramed(a.Ingress, route, bytes.Repeat([]byte{'x'}, size), framing)
+						want := 202
+						switch {
+						case !exists:
+							want = 404
+						case size > mb:
+							want = 413
+						}
+						r.Add("size_cases", 1)
+						r.Distinct(fmt.Sprintf("reload-body:%s:%v:%v:%d", framing, exists, size > mb, code))
+						if code != want {
+							r.Violation(fmt.Sprintf("max_body-after-reload:%s->%s:%s:%s", from.name, to.name, route, framing),
+								fmt.Sprintf("booted with %s, reloaded to %s: body of %d bytes (%s) on %s answered %d, want %d (max_body in force %d)", from.name, to.name, size, framing, route, code, want, mb),
+								map[string]any{"part": "size-reload", "from": from.name, "to": to.name, "route": route, "size": size, "framing": framing}, nil)
+						}
 					}
 				}
 				if !exists {
@@ -744,29 +788,35 @@ func sizeLimits(r *runner.Run) {
 	for _, pol := range []string{"reject", "drop_oldest"} {
 		for depth := 1; depth <= 4; depth++ {
 			// body sizes around max_body = 8
-			for size := 0; size <= 12; size++ {
-				st := queue.NewMemoryStore(queue.WithQueueLimits(depth, pol))
-				a, err := app.VerifBoot(app.VerifBootOptions{Dir: runner.Scratch() + "/size", ConfigText: fmt.Sprintf(sizeDSL, depth, pol), Store: st})
-				if err != nil {
-					r.Infra("boot: %v", err)
-					return
+			for _, framing := range framings {
+				for size := 0; size <= 12; size++ {
+					st := queue.NewMemoryStore(queue.WithQueueLimits(depth, pol))
+					a, err := app.VerifBoot(app.VerifBootOptions{Dir: runner.Scratch() + "/size", ConfigText: fmt.Sprintf(sizeDSL, depth, pol), Store: st})
+					if err != nil {
+						r.Infra("boot: %v", err)
+						return
+					}
+					before := listing(st)
+					body := []byte("abcdefghijklm"[:size])
+					code := postFramed(a.Ingress, "/p", body, framing)
+					after := listing(st)
+					r.Add("size_cases", 1)
+					want := 202
+					if size > 8 {
+						want = 413
+					}
+					r.Distinct(fmt.Sprintf("body:%s:%v:%d", framing, size > 8, code))
+					if code != want {
+						r.Violation(fmt.Sprintf("max_body:%s:%s", framing, map[bool]string{true: "over", false: "within"}[size > 8]), fmt.Sprintf("body of %d bytes (%s) on a route with max_body 8 answered %d, want %d", size, framing, code, want), map[string]any{"part": "size", "size": size, "framing": framing}, nil)
+					}
+					if code != 202 && before != after {
+						r.Violation("max_body:refusal-side-effect", fmt.Sprintf("refused body of %d bytes (%s) changed the queue", size, framing), map[string]any{"part": "size", "size": size, "framing": framing}, nil)
+					}
+					if code == 202 && after != before+fmt.Sprintf("/p|pull|queued|%x;", body) {
+						r.Violation("max_body:stored-differs:"+framing, fmt.Sprintf("accepted body of %d bytes (%s): the queue holds %q, want the %d bytes that were sent", size, framing, after, size), map[string]any{"part": "size", "size": size, "framing": framing}, nil)
+					}
+					a.Shutdown()
 				}
-				before := listing(st)
-				code := post(a.Ingress, "/p", bytes.Repeat([]byte{'x'}, size), "")
-				after := listing(st)
-				r.Add("size_cases", 1)
-				want := 202
-				if size > 8 {
-					want = 413
-				}
-				r.Distinct(fmt.Sprintf("body:%v:%d", size > 8, code))
-				if code != want {
-					r.Violation(fmt.Sprintf("max_body:size%d", size), fmt.Sprintf("body of %d bytes on a route with max_body 8 answered %d, want %d", size, code, want), map[string]any{"part": "size", "size": size}, nil)
-				}
-				if code != 202 && before != after {
-					r.Violation("max_body:refusal-side-effect", fmt.Sprintf("refused body of %d bytes changed the queue", size), map[string]any{"part": "size", "size": size}, nil)
-				}
-				a.Shutdown()
 			}
 			// header bytes around max_headers = 64: ReadRequest gives Host separately; headers stored: Content-Length + X-Pad
 			for pad := 30; pad <= 60; pad++ {
